@@ -1096,7 +1096,14 @@ class Sim:
                         self.violate("C01", "left-out-design-not-dominated-by-P" + self.after_fault(), {"i": i, "P": sorted(P), "best_margin": best})
             for p in sorted(P):
                 if gaps[p] > eps * (1 + 1e-9):
-                    self.violate("C01", "member-gap-exceeds-eps" + self.after_fault(), {"p": p, "gap": float(gaps[p]), "eps": eps, "P": sorted(P)})
+                    tag = ""
+                    if self.conf_kind == "hyperrectangle" and algo in PAVEBA_FAMILY:
+                        # the family hands eps*alpha (per facet) to the rectangle predicate, which reads
+                        # it as an objective-space shift s with W s = eps W alpha: gaps up to
+                        # eps * max_n (W alpha)_n / alpha_n are then the expected size of that defect
+                        bound = eps * float(np.max((W @ self.alpha_or) / self.alpha_or))
+                        tag = ":within-rect-slack" if gaps[p] <= bound * (1 + 1e-9) else ":beyond-rect-slack"
+                    self.violate("C01", "member-gap-exceeds-eps" + tag + self.after_fault(), {"p": p, "gap": float(gaps[p]), "eps": eps, "P": sorted(P)})
                     self.ctx.probes["gap_over_eps"] += 1
             if any(eps * 0.8 < g <= eps for g in gaps[sorted(P)]) if P else False:
                 self.ctx.probes["near_eps_member_accepted"] += 1
